@@ -25,7 +25,13 @@ def is_unqualified_table_expression(expression: exp.Expression) -> tuple[bool, b
         exp.Expression: The transformed expression.
     """
 
-    if not (node := expression.find(exp.Table)):
+    # the temporary helper table of a MERGE (see transforms_merge) resolves without a current database or schema
+    tables = (
+        t
+        for t in expression.find_all(exp.Table)
+        if not (t.this and t.name.upper() == "MERGE_CANDIDATES" and not t.args.get("db"))
+    )
+    if not (node := next(tables, None)):
         return False, False
 
     assert node.parent, f"No parent for table expression {node.sql()}"
